@@ -1389,7 +1389,7 @@ func RunC08(e *Env) (int, error) {
 		}
 	}
 	viol, err := e.Drive(n, fn, finish)
-	ev.Coverage["rule"] = "each run builds a world (1-3 layers x 1-2 documents from the program generator incl. hand-shaped reference cycles, any of yaml/json/toml, optional second input) and one invocation of bkl/bkld/bkli/bklr — or of bklb/kubectl-bkl wrapped around cat with one file argument and, in a third of those, more than a pipe buffer of output — with random flags (incl. -o paths without an extension), environment entries that are not NAME=value in 4% of the runs, then plants 0-2 faults: storage faults on layer bytes (torn write, bit flip, lost/duplicated span, inserted token, random bytes), file-graph faults ($parent self-loop/2-/3-cycle/diamond, symlink loops, dangling links, missing layer, directory as layer), syscall faults through strace (openat/read -> EIO/EACCES/EMFILE/ENOMEM/EINTR on a layer path), sink faults (stdout=/dev/full, unwritable -o), stdin layers; 3/4 of the runs use the instrumented binary (seeded iteration order, step budget), 1/4 the stock binary; oracle = exit/stdout/stderr trichotomy + crash signature + step/CPU/memory budget + blocked-forever (all threads asleep, no CPU for 10 s, nothing left to wait for); non-trivial = the input reached evaluation or a fault fired; distinct = canonical world+invocation"
+	ev.Coverage["rule"] = "each run builds a world (1-3 layers x 1-2 documents from the program generator incl. hand-shaped reference cycles, any of yaml/json/toml, optional second input) and one invocation of bkl/bkld/bkli/bklr — or of bklb/kubectl-bkl wrapped around cat with one file argument and, in a third of those, more than a pipe buffer of output — with random flags (incl. -o paths without an extension), environment entries that are not NAME=value in 4% of the runs, then plants 0-2 faults: storage faults on layer bytes (torn write, bit flip, lost/duplicated span, inserted token, random bytes), file-graph faults ($parent self-loop/2-/3-cycle/diamond, symlink loops, dangling links, missing layer, directory as layer), syscall faults through strace (openat/read -> EIO/EACCES/EMFILE/ENOMEM/EINTR on a layer path), sink faults (stdout=/dev/full, unwritable -o, an injected ENOSPC/EIO/EPIPE on the first write to the -o file, or a short first write under a file size limit of 1-7 bytes followed by EPIPE/ENOSPC/EIO/EFBIG on the second — stock bkl/bkld/bkli/bklr only), stdin layers; 3/4 of the runs use the instrumented binary (seeded iteration order, step budget), 1/4 the stock binary; oracle = exit/stdout/stderr trichotomy + crash signature + step/CPU/memory budget + blocked-forever (all threads asleep, no CPU for 10 s, nothing left to wait for); non-trivial = the input reached evaluation or a fault fired; distinct = canonical world+invocation"
 	ev.Coverage["loop_seconds"] = time.Since(t0).Seconds()
 	ev.Coverage["budgets"] = map[string]any{"evaluator_steps": ProcStepBudget, "cpu_seconds": 10, "cpu_seconds_confirm": 60, "address_space_bytes": int64(2) << 30}
 	ev.Assumptions = []string{
